@@ -105,10 +105,10 @@ def choose_point(rng, tri, d, family, off=None):
 
 
 def choose_point0(rng, tri, d, family):
-    kind = rng.choice(["lattice", "lattice", "centroid", "midpoint", "far", "dup", "facepoint", "cocirc"]
-                      if family != "dyadic" else ["dyadic", "dyadic", "dyadic", "dyadic_far", "centroid", "dup"])
+    kind = rng.choice(["lattice", "lattice", "centroid", "midpoint", "far", "dup", "facepoint", "cocirc", "gap", "hullpoint"]
+                      if family != "dyadic" else ["dyadic", "dyadic", "dyadic", "dyadic_far", "centroid", "dup", "gap"])
     S = sorted(tri.simplices)
-    if not S and kind in ("centroid", "midpoint", "facepoint"):
+    if not S and kind in ("centroid", "midpoint", "facepoint", "gap", "hullpoint"):
         kind = "lattice" if family != "dyadic" else "dyadic"      # a broken (empty) triangulation: the oracle reports it
     if kind == "lattice":
         p = tuple(float(rng.randint(-1, 4)) for _ in range(d))
@@ -128,6 +128,20 @@ def choose_point0(rng, tri, d, family):
             w[0] += 1
             tot += 1
         p = tuple(float(x) for x in sum(np.array(tri.vertices[i]) * wi for i, wi in zip(f, w)) / tot)
+    elif kind in ("gap", "hullpoint"):
+        # a hull facet f of a simplex (f, v).  "hullpoint": a point of the facet (on the hull boundary);
+        # "gap": just outside it, barycentric coordinate of v = -2e-8 (not located inside with the 1e-8
+        # tolerance, and the simplex it would span is flatter than the 1e-8 sliver tolerance)
+        cnt = {}
+        for s_ in S:
+            for f in itertools.combinations(s_, d):
+                cnt.setdefault(f, []).append(s_)
+        hullf = sorted(f for f, ss in cnt.items() if len(ss) == 1)
+        f = rng.choice(hullf)
+        v = next(i for i in cnt[f][0] if i not in f)
+        c = np.mean([tri.vertices[i] for i in f], axis=0)
+        lam = -2e-8 if kind == "gap" else 0.0
+        p = tuple(float(x) for x in c + lam * (np.array(tri.vertices[v]) - c))
     elif kind == "far":
         p = tuple(float(rng.randint(-6, 8)) for _ in range(d))
     elif kind == "cocirc":
@@ -144,8 +158,10 @@ def choose_point0(rng, tri, d, family):
     return kind, p
 
 
-def choose_hint(rng, tri, p):
+def choose_hint(rng, tri, p, kind=""):
     r = rng.random()
+    if kind in ("hullpoint", "dup", "centroid", "gap") and r < 0.25:
+        return "empty", ()      # simplex=() for a point that is not outside: the hull extension must fail cleanly
     if r < 0.40:
         return "none", None
     try:
@@ -298,11 +314,29 @@ class Oracle:
                            f"get_reduced_simplex({a.point}, {s})", step)
 
     def after_step(self, tri, before, out, ret, step, volume=True, rec=None):
+        after = X.snapshot(tri)
+        if out in ("OutsideSimplex", "AlreadyVertex", "InsideHull"):
+            # a rejected insertion leaves the COMPLETE state unchanged
+            if before != after:
+                what = []
+                if before[0] != after[0]:
+                    what.append(f"vertices {len(before[0])} -> {len(after[0])}")
+                if before[1] != after[1]:
+                    what.append("simplices")
+                if before[2] != after[2]:
+                    what.append(f"vertex_to_simplices ({len(before[2])} -> {len(after[2])} entries)")
+                self.err("reject_unchanged", f"rejected insertion ({out}) changed the triangulation: " + ", ".join(what), step)
+        try:
+            self._after_step(tri, before, after, out, ret, step, volume, rec)
+        except Exception as e:  # noqa: BLE001  (a corrupted object can make the inspection itself fail)
+            self.err("state_unreadable", f"inspecting the triangulation after add_point ({out}) raised "
+                                         f"{type(e).__name__}: {str(e)[:80]}", step)
+
+    def _after_step(self, tri, before, after, out, ret, step, volume, rec):
         if out == "Accepted" and rec is not None:
             self.note_hanging(tri, rec, step)
         for clause, msg in X.structure_errors(tri):
             self.err(clause, msg, step)
-        after = X.snapshot(tri)
         if out == "Accepted":
             dl, ad = {simp(s) for s in ret[0]}, {simp(s) for s in ret[1]}
             b = {simp(s) for s in before[1]}
@@ -315,10 +349,7 @@ class Oracle:
             n = len(before[0])
             if any(n not in s for s in ad):
                 self.err("every_new_simplex_has_pt", f"a created simplex does not contain the new vertex {n}", step)
-        elif out in ("OutsideSimplex", "AlreadyVertex", "InsideHull"):
-            if before != after:
-                self.err("reject_unchanged", f"rejected insertion ({out}) changed the triangulation", step)
-        else:
+        elif out not in ("OutsideSimplex", "AlreadyVertex", "InsideHull"):
             self.err("internal_error", f"add_point raised {out}", step)
         if volume:
             for clause, msg in X.tiling_errors(tri, self.sliver):
@@ -353,8 +384,12 @@ def drive(d, init_pts, T, family, rng=None, nins=0, inserts=None, volume_every_s
             kind, p, hk, hint = item["kind"], tuple(item["p"]), item["hint_kind"], item["hint"]
             hint = None if hint is None else tuple(hint)
         else:
-            kind, p = choose_point(rng, tri, d, family, off)
-            hk, hint = choose_hint(rng, tri, p)
+            try:
+                kind, p = choose_point(rng, tri, d, family, off)
+                hk, hint = choose_hint(rng, tri, p, kind)
+            except Exception as e:  # noqa: BLE001
+                orc.err("state_unreadable", f"reading the triangulation raised {type(e).__name__}: {str(e)[:80]}", k - 1)
+                break
         concrete.append({"kind": kind, "p": list(p), "hint_kind": hk, "hint": None if hint is None else list(hint)})
         before = X.snapshot(tri)
         ret = None
@@ -371,17 +406,35 @@ def drive(d, init_pts, T, family, rng=None, nins=0, inserts=None, volume_every_s
         a = rec.adds[0]
         pid = len(allpts)
         allpts.append(p)
-        orc.check_predicates(a, list(tri.vertices) if out == "Accepted" else list(tri.vertices) + [p], k)
+        nerr = len(orc.errors)
+        try:        # first: the triggers of the known findings are found among the predicate outcomes
+            orc.check_predicates(a, list(tri.vertices) if out == "Accepted" else list(before[0]) + [p], k)
+        except Exception as e:  # noqa: BLE001
+            orc.err("state_unreadable", f"inspecting the predicates of add_point ({out}) raised "
+                                        f"{type(e).__name__}: {str(e)[:80]}", k)
         orc.after_step(tri, before, out, ret, k, volume=volume_every_step or k == len(todo) - 1, rec=a)
-        steps.append({"pid": pid, "hint": hint, "rec": a, "out": out,
-                      "ret": None if ret is None else ({simp(s) for s in ret[0]}, {simp(s) for s in ret[1]}),
-                      "obs": observe(tri), "kind": kind, "hint_kind": hk,
-                      "path": path_of(a, out)})
-        if out not in ("Accepted", "OutsideSimplex", "AlreadyVertex", "InsideHull", "Broken"):
-            break
-    general = family == "dyadic" and len(tri.vertices) <= 11 and \
-        X.general_position([X.fr_point(p) for p in tri.vertices], orc.TF)
-    orc.final(tri, len(steps) - 1, general)
+        try:
+            obs = observe(tri)
+        except Exception as e:  # noqa: BLE001
+            orc.err("state_unreadable", f"inspecting the triangulation after add_point ({out}) raised "
+                                        f"{type(e).__name__}: {str(e)[:80]}", k)
+            obs = None
+        if obs is not None:
+            steps.append({"pid": pid, "hint": hint, "rec": a, "out": out,
+                          "ret": None if ret is None else ({simp(s) for s in ret[0]}, {simp(s) for s in ret[1]}),
+                          "obs": obs, "kind": kind, "hint_kind": hk,
+                          "path": path_of(a, out)})
+        corrupt = any(c in ("reject_unchanged", "state_unreadable", "index_consistent") for c, _m, _s in orc.errors[nerr:])
+        if obs is None or corrupt or out not in ("Accepted", "OutsideSimplex", "AlreadyVertex", "InsideHull", "Broken"):
+            break       # the object is no longer a triangulation: the rest of the history says nothing more
+    general = False
+    try:
+        general = family == "dyadic" and len(tri.vertices) <= 11 and \
+            X.general_position([X.fr_point(p) for p in tri.vertices], orc.TF)
+        orc.final(tri, len(steps) - 1, general)
+    except Exception as e:  # noqa: BLE001
+        orc.err("state_unreadable", f"inspecting the final triangulation raised {type(e).__name__}: {str(e)[:80]}",
+                len(steps) - 1)
     return {"d": d, "init": [list(p) for p in init_pts], "T": T, "family": family, "inserts": concrete,
             "steps": steps, "oracle": orc, "init_simplices": init_simplices,
             "n0": len(init_pts), "general": general, "tri": tri}
@@ -544,6 +597,11 @@ def run(chk: Check) -> int:
             r = drive(d, init, T, family, rng=rng, nins=rng.randint(2, nmax), volume_every_step=(d < 4 or not chk.quick), off=off)
         except ValueError:
             r = None    # scipy refused the initial points
+        except Exception as e:  # noqa: BLE001  (fail closed, but keep going with the other cases)
+            chk.fail("C03:internal_error", f"Triangulation dim={d} transform={T}: driving the case raised "
+                                           f"{type(e).__name__}: {str(e)[:100]}",
+                     {"d": d, "init": [list(q) for q in init], "T": T, "family": family, "inserts": [], "seed_case": k - 1})
+            r = None
         if r is None:
             tot["degenerate_initial_skipped"] += 1
             continue
